@@ -167,7 +167,7 @@ AT_PATH = {0: [], 1: ["sub"], 2: ["sub", "deep"], 3: ["other"]}
 def u2_names(sc):
     s = sfx(sc["id"])
     v = sc.get("variant", "distinct")
-    if v == "samename":
+    if v in ("samename", "samenameboth"):
         return {1: "samedecl" + s, 2: "samedecl" + s, "m1": "_moda", "m2": "_modb"}
     if v == "suffix":
         return {1: "public_tail" + s, 2: "_tail" + s, "m1": "_moda", "m2": "_modb"}
@@ -260,6 +260,8 @@ def u2_observe(sc, stubs: Stubs, rootname: str, idx: dict | None = None) -> dict
                         tgt = int(m.pyname[-1])
             if tgt:
                 shown = d.pyname.replace(mark, "")
+                if sc.get("variant") == "samenameboth":     # the specification calls the two declarations declone / decltwo
+                    shown = {"samedecl": "declone" if tgt == 1 else "decltwo"}.get(shown, shown)
                 if sc.get("variant") == "suffixalias":      # the specification calls the two declarations declone / decltwo
                     shown = {"tail": "declone", "big_tail": "decltwo"}.get(shown, shown)
                 occs[tgt].append({"home": [("other" if seg == "_other" and sc.get("variant") == "privreexp" else seg.replace(mark, "")) for seg in file_home(f, rootname, sid)], "name": shown,
